@@ -620,6 +620,11 @@ where
             return Err(Error::DataTooBig);
         }
 
+        // Items are length-prefixed with a u16 on the wire
+        if data.len() > usize::from(u16::MAX) {
+            return Err(Error::DataTooBig);
+        }
+
         if let Some(key) = self
             .broadcast_handler
             .receive_item(data, None)
